@@ -12,10 +12,12 @@ package ord
 //@   trusted "an Unlocker writes no memory that existed before the call"
 
 //@ func ord.(*ValidateListingArgs).Validate
+//@   bytes token
 //@   pure
 //@   requires (not (nil? pstx))
 //@   requires (forall ((k Int)) (=> (and (<= 0 k) (< k (len (. pstx Inputs)))) (not (nil? (at (. pstx Inputs) k)))))
 //@   ensures[C20.validate_shape] (=> result (and (= (len (. pstx Inputs)) 1) (= (len (. pstx Outputs)) 1)))
+//@   ensures[C20.validate_outpoint] (=> result (and (not (nil? (. vla ListedOrdinalUTXO))) (= (bytes (. (at (. pstx Inputs) 0) previousTxID)) (bytes (. (. vla ListedOrdinalUTXO) TxID))) (= (. (at (. pstx Inputs) 0) PreviousTxOutIndex) (. (. vla ListedOrdinalUTXO) Vout))))
 
 // ---- C20 (partial): structure of the completed sale transaction ----
 //@ func ord.AcceptOrdinalSaleListing
